@@ -93,6 +93,9 @@ def _pwa(t, pts):
     src = np.asarray(t.source.points, dtype=float)
     tgt = np.asarray(t.target.points, dtype=float)
     tl = np.asarray(t.trilist)
+    given = getattr(t, "_vf_given_trilist", None)       # set by the generator: the triangle list of the source as it was handed over
+    if given is not None and (not len(given) or int(np.max(given)) < len(src)):
+        tl = np.asarray(given)
     if src.shape[1] != 2 or pts.shape[1] != 2 or len(tgt) < len(src) or len(pts) * len(tl) > 4_000_000:
         return None
     status, best, w = pwa_status(src, tl, pts)
